@@ -40,7 +40,7 @@ EXPLORE = {
                  dict(N=4, NEdges=3, MaxDeg=2, MinW=1, MaxW=2, Flags0=ANY_FLAG, Modes={"init", "seqs"}),   # literal exactness
                  dict(N=5, NEdges=3, MaxDeg=2, MinW=0, MaxW=1, Flags0=FRESH, Modes={"init"}),              # 147 k states, 40 s
                  dict(N=4, NEdges=4, MaxDeg=2, MinW=0, MaxW=1, Flags0=FRESH, Modes={"init"}),              # 173 k states, 45 s
-                 dict(N=5, NEdges=3, MaxDeg=2, MinW=0, MaxW=1, Flags0={"none", "yes"}, Modes={"seqs"})],
+                 dict(N=5, NEdges=3, MaxDeg=2, MinW=0, MaxW=1, Flags0=FRESH, Modes={"seqs"})],                 # 1.48 M states, 4-5 min
 }
 BIG = 1 << 28        # TLC integers are 32-bit: larger weights are not sent
 
